@@ -282,6 +282,25 @@ func (e *SpecEnv) eval(x ast.Expr) Val {
 		specFail("unsupported unary op %s", n.Op)
 	case *ast.BinaryExpr:
 		return e.evalBinary(n)
+	case *ast.SliceExpr:
+		// s[lo:hi] of a slice (no bounds obligation in specifications: an out-of-range view is just some other view)
+		base := e.eval(n.X)
+		if base.t == nil || base.t.sort != SSlice || n.Slice3 {
+			specFail("slice expression: %s is not a slice", exprString(n.X))
+		}
+		intT := types.Typ[types.Int]
+		lo := b.BV(0, 64)
+		if n.Low != nil {
+			lo = e.coerce(e.eval(n.Low), intT).t
+		}
+		hi := w.slen(base.t)
+		if n.High != nil {
+			hi = e.coerce(e.eval(n.High), intT).t
+		}
+		et := base.typ.Underlying().(*types.Slice).Elem()
+		sz := uint64(types.SizesFor("gc", "amd64").Sizeof(et))
+		_ = sz
+		return Val{t: w.mkSlice(w.sbase(base.t), b.BVOp("bvadd", w.soff(base.t), lo), b.BVOp("bvsub", hi, lo), b.BVOp("bvsub", w.scap(base.t), lo)), typ: base.typ}
 	case *ast.IndexExpr:
 		base := e.eval(n.X)
 		return e.index(base, n.Index, x)
@@ -829,7 +848,18 @@ func (e *SpecEnv) evalCall(n *ast.CallExpr) Val {
 		if e.iter == nil {
 			specFail("iter() only in loop step clauses")
 		}
-		return e.inState(e.iter).eval(n.Args[0])
+		// state at the head of the iteration; loop-carried variables (phis) take their head values too
+		ie := e.inState(e.iter)
+		hv := map[string]Val{}
+		for k, v := range e.vars {
+			if strings.HasSuffix(k, "_head") {
+				hv[strings.TrimSuffix(k, "_head")] = v
+			}
+		}
+		if len(hv) > 0 {
+			ie = ie.with(hv)
+		}
+		return ie.eval(n.Args[0])
 	case "ret":
 		// ret(callee, result): result of the latest call of callee on this path
 		argn(2)
